@@ -255,6 +255,19 @@ fn c01_codec<C: Oracle>(rep: &mut Report, thorough: bool, rng: &mut Rng) {
         inputs.push(vec![valid[0], b]);
         inputs.push(vec![b, valid[valid.len() - 1]]);
     }
+    for pre in [vec![], vec![valid[0]], vec![valid[0], valid[valid.len() - 1]]] {
+        for bad in [b'x', b' ', b'\n', b'1', b'J', b'a'] {
+            if C::expect_ascii(bad).is_some() { continue; }
+            let mut v = pre.clone();
+            v.push(bad);
+            v.push(valid[0]);
+            v.extend("\u{e9}".as_bytes());
+            v.push(valid[0]);
+            inputs.push(v.clone());
+            v.extend("\u{1F9EC}x".as_bytes());
+            inputs.push(v);
+        }
+    }
     inputs.push("é".as_bytes().to_vec());
     inputs.push(format!("{}é{}", valid[0] as char, valid[0] as char).into_bytes());
     inputs.push("\u{1F9EC}".as_bytes().to_vec());
@@ -1341,6 +1354,10 @@ fn c12(_tier: &str, seed: u64) -> Report {
                 }
                 let sub = (0..3).all(|i| setof(y[i]) & setof(x[i]) == setof(y[i]));
                 rep.expect(sx.contains(sy) == sub && sx.to_owned().contains(sy) == sub, "C12 contains <=> every position of the argument is a subset", || format!("{} contains {}", sx, sy));
+                // the third receiver type: a hand-built static-style array (the literal macros hand out slices, so this impl is
+                // only reached through a SeqArray value)
+                let arr: bio_seq::seq::SeqArray<Iupac, 3, 1> = bio_seq::seq::SeqArray { _p: core::marker::PhantomData, ba: bitvec::array::BitArray::new([build::<Iupac>(&x).into_raw()[0]]) };
+                rep.expect(arr.contains(sy) == sub && arr.contains(&sy.to_owned()) == sub && !arr.contains(&sy[..2]) && rows_of::<Iupac>(&arr) == x, "C12 contains on a SeqArray receiver <=> every position of the argument is a subset", || format!("SeqArray {} contains {}", sx, sy));
             }
         }
     }
